@@ -4,7 +4,9 @@
 // A run: LimitListener(inner, n), n in 1..4, over a simulated inner
 // net.Listener whose Accept blocks until the scheduler hands out a connection
 // ("dial" event), injects a transient Accept error ("fail" event, fault
-// configuration only) or the listener is closed; 1-6 acceptor goroutines, 1-3
+// configuration only) or the listener is closed; a generated fraction of the
+// connections has a SLOW Close (the first inner Close call parks until the
+// scheduler event "inner close of conn k completes"); 1-6 acceptor goroutines, 1-3
 // closer goroutines that close accepted connections (a first time, again, or two
 // closers the same connection in one event) and optionally a goroutine that
 // closes the listener (once or twice) at an arbitrary point. Actors park before
@@ -14,17 +16,20 @@
 // without an intervening quiescence.
 //
 // Oracles (at every quiescent point):
-//   - limit: accepted connections whose Close has not returned <= n;
+//   - limit: a connection is open from the moment Accept returned it until a
+//     Close call on the INNER connection has returned (the resource the limit
+//     protects); open connections <= n;
 //   - step model: the operations that returned during the step must be
 //     explainable in some order by a counting-semaphore specification (Accept
 //     returns a connection only while open < n, a connection is available and
-//     the listener is not closed; only the first Close of a connection frees a
-//     slot; Accept fails only with an injected inner error or, once the listener
+//     the listener is not closed; a connection stops being open, exactly once,
+//     when an inner Close call on it returns; Accept fails only with an injected
+//     inner error or, once the listener
 //     is closed, with the inner listener's error);
 //   - no lost release / no blocking after Close: no Accept stays blocked while
 //     the model has a free slot and the inner listener has something to hand
-//     out, or after the listener's Close has returned; Conn.Close and
-//     Listener.Close never block;
+//     out, or after the listener's Close has returned; Listener.Close never
+//     blocks and Conn.Close blocks only inside a parked inner Close;
 //   - after teardown (listener and every connection closed) no goroutine stays
 //     blocked;
 //   - the complete history is checked with porcupine against the same
@@ -69,13 +74,36 @@ func (a llAddr) String() string  { return fmt.Sprintf("conn%d", int(a)) }
 
 type llInnerConn struct {
 	id     int
+	h      *llH
+	slow   bool        // the first Close call parks until the scheduler releases it
+	handed atomic.Bool // returned by the inner listener's Accept
 	closes atomic.Int32
+	parked atomic.Bool   // a Close call is parked in here
+	rel    chan struct{} // the scheduler's "inner close completes"
+	once   sync.Once     // the first return of a Close call is reported to the harness
 }
 
 func (c *llInnerConn) Read(p []byte) (int, error)  { return 0, net.ErrClosed }
 func (c *llInnerConn) Write(p []byte) (int, error) { return 0, net.ErrClosed }
+// Close: the first call does the work (slowly, for a slow connection: it parks
+// until the scheduler lets it complete); calls made meanwhile or later return
+// net.ErrClosed at once, like a real connection. The first return of any call
+// is the instant the connection stops being open; it is reported to the
+// harness as a scheduler-side pseudo operation.
 func (c *llInnerConn) Close() error {
-	if c.closes.Add(1) > 1 {
+	first := c.closes.Add(1) == 1
+	if !c.handed.Load() {
+		return nil // closed by the inner listener's own Close, nobody accepted it
+	}
+	if first && c.slow && !c.h.aborting.Load() {
+		c.parked.Store(true)
+		<-c.rel
+		c.parked.Store(false)
+	}
+	c.once.Do(func() {
+		c.h.complete(&llOp{actor: -1, kind: llInnerClosed, target: c.id, call: c.h.curCall.Load(), cid: -1})
+	})
+	if !first {
 		return net.ErrClosed
 	}
 	return nil
@@ -95,15 +123,17 @@ type llItem struct {
 // backlog or the listener is closed; after Close it always fails, and Close
 // closes the connections nobody accepted.
 type llInner struct {
+	h       *llH
 	mu      sync.Mutex
 	cond    *sync.Cond
 	backlog []llItem
 	closed  bool
 	nextID  int
+	all     []*llInnerConn
 }
 
-func llNewInner() *llInner {
-	in := &llInner{}
+func llNewInner(h *llH) *llInner {
+	in := &llInner{h: h}
 	in.cond = sync.NewCond(&in.mu)
 	return in
 }
@@ -122,6 +152,7 @@ func (in *llInner) Accept() (net.Conn, error) {
 	if it.err != nil {
 		return nil, it.err
 	}
+	it.conn.handed.Store(true)
 	return it.conn, nil
 }
 
@@ -153,7 +184,12 @@ func (in *llInner) push(fail bool) int {
 	} else {
 		id = in.nextID
 		in.nextID++
-		in.backlog = append(in.backlog, llItem{conn: &llInnerConn{id: id}})
+		c := &llInnerConn{id: id, h: in.h, rel: make(chan struct{})}
+		if id < len(in.h.plan.Slow) {
+			c.slow = in.h.plan.Slow[id]
+		}
+		in.all = append(in.all, c)
+		in.backlog = append(in.backlog, llItem{conn: c})
 	}
 	in.cond.Signal()
 	return id
@@ -172,9 +208,11 @@ const (
 	llIdle
 	llDial // scheduler-side pseudo operations
 	llFail
+	llInnerClosed // an inner Close call on an accepted connection returned (first time)
+	llInnerRel    // scheduler event only: let a parked inner Close complete
 )
 
-var llKindName = [...]string{"Accept", "Close", "CloseAgain", "Listener.Close", "idle", "dial", "fail"}
+var llKindName = [...]string{"Accept", "Close", "CloseAgain", "Listener.Close", "idle", "dial", "fail", "innerClosed", "innerRelease"}
 
 type llPlan struct {
 	N         int
@@ -183,13 +221,18 @@ type llPlan struct {
 	LClose    int        // -1: nobody closes the listener; else idle steps before Close
 	LTwice    bool
 	Dials     int
+	Slow      []bool // per dialled connection: slow inner Close
 	Fails     int
 	RacePct   int
 }
 
 func (p *llPlan) String() string {
 	var sb strings.Builder
-	fmt.Fprintf(&sb, "n=%d acceptors=%v dials=%d fails=%d race=%d%% lclose=%d twice=%v closers=", p.N, p.Acceptors, p.Dials, p.Fails, p.RacePct, p.LClose, p.LTwice)
+	slow := make([]byte, len(p.Slow))
+	for i, b := range p.Slow {
+		slow[i] = map[bool]byte{false: '.', true: 'S'}[b]
+	}
+	fmt.Fprintf(&sb, "n=%d acceptors=%v dials=%d slow=%q fails=%d race=%d%% lclose=%d twice=%v closers=", p.N, p.Acceptors, p.Dials, slow, p.Fails, p.RacePct, p.LClose, p.LTwice)
 	for i, c := range p.Closers {
 		if i > 0 {
 			sb.WriteString("|")
@@ -236,6 +279,10 @@ func llDrawPlan(rt *rapid.T) *llPlan {
 		p.LTwice = vs.Pct(c, 25)
 	}
 	p.Dials = c.Intn(min(total+3, 24))
+	slowPct := vs.Pick(c, 30, 0, 60, 100)
+	for i := 0; i < p.Dials; i++ {
+		p.Slow = append(p.Slow, slowPct > 0 && c.Intn(100) >= 100-slowPct)
+	}
 	if vs.Config() == "fault" {
 		p.Fails = vs.Range(c, 1, 4)
 	}
@@ -262,6 +309,8 @@ func (o *llOp) in() string {
 	switch o.kind {
 	case llCloseOpen, llCloseAgain:
 		return fmt.Sprintf("conn%d.Close", o.target)
+	case llInnerClosed:
+		return fmt.Sprintf("inner close of conn%d returned", o.target)
 	}
 	return llKindName[o.kind]
 }
@@ -284,12 +333,12 @@ func (o *llOp) out() string {
 // counting-semaphore specification of LimitListener(inner, n)
 type llState struct {
 	n        int8
-	open     int8   // accepted connections not yet closed
+	open     int8   // accepted connections on which no inner Close call has returned yet
 	avail    int8   // connections the inner listener can hand out
 	errs     int8   // transient errors the inner listener will hand out
 	closed   bool   // listener closed
 	accepted uint32 // bit per connection id
-	cclosed  uint32 // bit per connection id: closed at least once
+	cclosed  uint32 // bit per connection id: an inner Close call has returned
 }
 
 func llStep(s llState, o *llOp) (llState, bool) {
@@ -330,14 +379,16 @@ func llStep(s llState, o *llOp) (llState, bool) {
 		}
 		return s, false
 	case llCloseOpen, llCloseAgain:
+		// the return of the wrapper's Close changes nothing by itself: the
+		// connection stopped being open when the inner Close returned
+		return s, s.accepted&(uint32(1)<<o.target) != 0
+	case llInnerClosed:
 		bit := uint32(1) << o.target
-		if s.accepted&bit == 0 {
+		if s.accepted&bit == 0 || s.cclosed&bit != 0 {
 			return s, false
 		}
-		if s.cclosed&bit == 0 {
-			s.cclosed |= bit
-			s.open--
-		}
+		s.cclosed |= bit
+		s.open--
 		return s, true
 	case llLClose:
 		s.closed = true
@@ -414,8 +465,10 @@ type llAbort struct{}
 type llConn struct {
 	id          int
 	c           net.Conn
+	inner       *llInnerConn
 	closeCalled int  // Close operations released on it
-	closedOnce  bool // a Close has returned
+	closedOnce  bool // a Close of the wrapper has returned
+	innerClosed bool // an inner Close call has returned: no longer open
 }
 
 type llActor struct {
@@ -461,6 +514,7 @@ type llH struct {
 
 	seq      int64 // advanced on the scheduler goroutine only
 	stepCall int64
+	curCall  atomic.Int64 // copy of stepCall readable from the stub connections
 	cmu      sync.Mutex
 	comps    []*llOp
 	inflight []*llOp
@@ -472,7 +526,7 @@ type llH struct {
 	dialsLeft, failsLeft int
 	lcloseReleased       bool // a Listener.Close has been released
 	lcloseReturned       bool
-	accepted, closedN    int
+	accepted, closedN    int // closedN: accepted connections whose inner Close has returned
 	completed, races     int
 	maxOpen              int
 }
@@ -549,7 +603,14 @@ func (h *llH) lcloser(a *llActor) {
 type llCand struct {
 	a     *llActor // nil: scheduler-side pseudo operation
 	kind  llKind
+	conn  *llConn // llInnerRel: the connection whose parked inner Close completes
 	label string
+}
+
+func (h *llH) newStep() {
+	h.seq++
+	h.stepCall = h.seq
+	h.curCall.Store(h.seq)
 }
 
 func (h *llH) closeTargets(again bool) []*llConn {
@@ -581,6 +642,11 @@ func (h *llH) candidates() []llCand {
 		}
 		out = append(out, llCand{a: a, kind: k, label: a.name + ": " + llKindName[k]})
 	}
+	for _, c := range h.conns {
+		if c.inner.parked.Load() {
+			out = append(out, llCand{kind: llInnerRel, conn: c, label: fmt.Sprintf("inner: close of conn%d completes", c.id)})
+		}
+	}
 	if !h.lcloseStarted() {
 		if h.dialsLeft > 0 {
 			out = append(out, llCand{kind: llDial, label: "inner: dial"})
@@ -606,8 +672,7 @@ func (h *llH) Events(now time.Time) []vs.Event {
 			w = 4
 		}
 		evs = append(evs, vs.Event{Label: c.label, Weight: w, Run: func() {
-			h.seq++
-			h.stepCall = h.seq
+			h.newStep()
 			h.release(c, nil)
 		}})
 	}
@@ -624,12 +689,24 @@ func (h *llH) NextTimed(time.Time) (time.Time, bool) { return time.Time{}, false
 // earlier participant of the same race event is closing: with it a closer
 // closes that very connection.
 func (h *llH) release(c llCand, same *llConn) *llConn {
+	if c.kind == llInnerRel {
+		// not an operation itself: the parked inner Close call returns and
+		// reports llInnerClosed
+		vs.G.Inc("probe.inner_close_released")
+		c.conn.inner.rel <- struct{}{}
+		return nil
+	}
 	if c.a == nil {
 		op := &llOp{actor: -1, kind: c.kind, call: h.stepCall, cid: -1}
 		if c.kind == llDial {
 			h.dialsLeft--
 			op.cid = h.inner.push(false)
-			h.tr.Ev("  dial conn%d", op.cid)
+			if op.cid < len(h.plan.Slow) && h.plan.Slow[op.cid] {
+				h.tr.Ev("  dial conn%d (slow close)", op.cid)
+				vs.G.Inc("probe.slow_conn_dialled")
+			} else {
+				h.tr.Ev("  dial conn%d", op.cid)
+			}
 		} else {
 			h.failsLeft--
 			h.inner.push(true)
@@ -668,6 +745,9 @@ func (h *llH) release(c llCand, same *llConn) *llConn {
 	case llCloseOpen, llCloseAgain:
 		if tgt.closeCalled > 0 {
 			vs.G.Inc("probe.close_again")
+			if tgt.inner.parked.Load() {
+				vs.G.Inc("probe.close_again_while_inner_close_parked")
+			}
 		}
 		tgt.closeCalled++
 		op.target = tgt.id
@@ -681,8 +761,7 @@ func (h *llH) release(c llCand, same *llConn) *llConn {
 }
 
 func (h *llH) race(cands []llCand) {
-	h.seq++
-	h.stepCall = h.seq
+	h.newStep()
 	k := 2
 	if len(cands) >= 3 && vs.Pct(h.sim.C, 15) {
 		k = 3
@@ -702,6 +781,9 @@ func (h *llH) race(cands []llCand) {
 	h.tr.Ev("  race = %s", strings.Join(labels, " || "))
 	h.races++
 	vs.G.Inc("probe.race_events")
+	if kinds[llInnerRel] > 0 && len(chosen) > kinds[llInnerRel] {
+		vs.G.Inc("probe.race_inner_release_vs_op")
+	}
 	if kinds[llLClose] > 0 && kinds[llAccept] > 0 {
 		vs.G.Inc("probe.race_listener_close_vs_accept")
 	}
@@ -762,6 +844,12 @@ func (h *llH) check() *vs.Violation {
 					return vs.Violf(llProp, "duplicate_conn", "accept_duplicate", "Accept returned conn%d a second time", o.cid)
 				}
 				c := &llConn{id: o.cid, c: o.conn}
+				if o.cid >= 0 && o.cid < len(h.inner.all) {
+					c.inner = h.inner.all[o.cid]
+				}
+				if c.inner == nil {
+					return vs.Violf(llProp, "unexpected_result", "accept_unknown_conn", "Accept returned conn%d, which the inner listener never created", o.cid)
+				}
 				h.conns = append(h.conns, c)
 				h.byID[o.cid] = c
 				h.accepted++
@@ -776,9 +864,14 @@ func (h *llH) check() *vs.Violation {
 			c := h.byID[o.target]
 			if !c.closedOnce {
 				c.closedOnce = true
-				h.closedN++
 			} else {
 				vs.G.Inc("probe.repeated_close_returned")
+			}
+		case llInnerClosed:
+			h.tr.Ev("  %s", o.in())
+			if c := h.byID[o.target]; c != nil && !c.innerClosed {
+				c.innerClosed = true
+				h.closedN++
 			}
 		case llLClose:
 			h.lcloseReturned = true
@@ -791,7 +884,17 @@ func (h *llH) check() *vs.Violation {
 	open := h.accepted - h.closedN
 	h.maxOpen = max(h.maxOpen, open)
 	if open > h.plan.N {
-		return vs.Violf(llProp, "limit_exceeded", "open>n", "%d accepted connections have not been closed, limit n=%d", open, h.plan.N)
+		var which []string
+		for _, c := range h.conns {
+			if !c.innerClosed {
+				st := "open"
+				if c.inner.parked.Load() {
+					st = "inner Close in progress"
+				}
+				which = append(which, fmt.Sprintf("conn%d(%s)", c.id, st))
+			}
+		}
+		return vs.Violf(llProp, "limit_exceeded", "open>n", "%d accepted connections are open (no Close of the underlying connection has returned yet), limit n=%d: %s", open, h.plan.N, strings.Join(which, " "))
 	}
 	if open == h.plan.N {
 		vs.G.Inc("probe.at_limit")
@@ -813,13 +916,30 @@ func (h *llH) check() *vs.Violation {
 	}
 	// blocked operations
 	var blocked []*llOp
+	innerParked, acceptBlocked := 0, 0
 	for _, o := range h.inflight {
-		if o != nil {
-			blocked = append(blocked, o)
+		if o == nil {
+			continue
+		}
+		if (o.kind == llCloseOpen || o.kind == llCloseAgain) && h.byID[o.target].inner.parked.Load() {
+			// in flight inside the slow Close of the underlying connection: it
+			// returns when the scheduler lets that Close complete
+			innerParked++
+			if o.call == h.stepCall {
+				vs.G.Inc("probe.inner_close_parked")
+			}
+			continue
+		}
+		blocked = append(blocked, o)
+		if o.kind == llAccept {
+			acceptBlocked++
 			if o.call == h.stepCall {
 				vs.G.Inc("probe.accept_blocked")
 			}
 		}
+	}
+	if innerParked > 0 && acceptBlocked > 0 {
+		vs.G.Inc("probe.accept_blocked_while_inner_close_parked")
 	}
 	if len(blocked) > 0 {
 		before = h.stateString()
@@ -858,7 +978,12 @@ func (h *llH) check() *vs.Violation {
 // teardown closes the listener and every connection and makes every goroutine
 // exit. It reports whether goroutines stayed blocked after that.
 func (h *llH) teardown() (stuck bool) {
-	h.aborting.Store(true)
+	h.aborting.Store(true) // from here on no inner Close parks
+	for _, c := range h.inner.all {
+		if c.parked.Load() {
+			c.rel <- struct{}{}
+		}
+	}
 	var helper atomic.Bool
 	go func() {
 		h.l.Close()
@@ -937,6 +1062,9 @@ var llProbes = []string{
 	"probe.repeated_close_returned", "probe.accept_blocked", "probe.accept_blocked_at_limit",
 	"probe.two_or_more_accepts_blocked", "probe.blocked_accept_released", "probe.at_limit",
 	"probe.accept_closed_error",
+	"probe.slow_conn_dialled", "probe.inner_close_parked", "probe.inner_close_released",
+	"probe.close_again_while_inner_close_parked", "probe.accept_blocked_while_inner_close_parked",
+	"probe.race_inner_release_vs_op",
 	"probe.porcupine_checked", // probe.porcupine_unknown is counted when it happens; zero is the expected value
 }
 
@@ -961,7 +1089,7 @@ func llRun(t *testing.T, rt *rapid.T) {
 		sim := vs.NewSim(tape, tr)
 		sim.MaxSteps, sim.Horizon = 600, time.Minute
 		h = &llH{plan: plan, sim: sim, tr: tr, byID: map[int]*llConn{}, dialsLeft: plan.Dials, failsLeft: plan.Fails}
-		h.inner = llNewInner()
+		h.inner = llNewInner(h)
 		h.l = LimitListener(h.inner, plan.N)
 		h.states = []llState{init}
 		add := func(name string, role int, f func(a *llActor)) {
